@@ -5,7 +5,7 @@ import json, os, re, sys, glob, time
 ROOT = os.path.dirname(os.path.dirname(os.path.abspath(__file__)))
 label = sys.argv[1] if len(sys.argv) > 1 else "round"
 for log in sorted(glob.glob("/tmp/se_C*_*.log")):
-    m = re.match(r".*/se_(C\d+)_(\d)\.log", log)
+    m = re.match(r".*/se_(C\d+)_(\d+)\.log", log)
     if not m: continue
     d = os.path.join(ROOT, "seeded", f"{m.group(1)}-{m.group(2)}")
     if not os.path.isdir(d): continue
